@@ -158,7 +158,43 @@ def c_chi2(ctx, args):
     return None
 
 
-CHECKS = {'pair': c_pair, 'clifford': c_clifford, 'maps_states': c_maps_states, 'resample': c_resample, 'chi2': c_chi2}
+def c_chi2_product(ctx, args):
+    """support only: random_pauli_map(2) is a product of two INDEPENDENT uniform one-qubit Cliffords: 36 string classes (df 35), the 3x3 table of the two X-images (df 8)
+    and the 16 sign patterns (df 15); thresholds at a false-alarm rate of 1e-6 each"""
+    be, nsamp, seed = args
+    if be == 'np':
+        NP.seed_numba(seed)
+        np.random.seed(seed)
+        draw = lambda: NP.oPL(pc.random_pauli_map(2))
+    else:
+        import torch, torchclifford as tc, vlib.impl_torch as TT
+        torch.manual_seed(seed)
+        draw = lambda: TT.oPL(tc.random_pauli_map(2))
+    cls, tab, sgn = {}, {}, {}
+    for _ in range(nsamp):
+        m = draw()
+        k = tuple(tuple(g) for g, _ in m)
+        cls[k] = cls.get(k, 0) + 1
+        x = (tuple(m[0][0][0:2]), tuple(m[2][0][2:4]))
+        tab[x] = tab.get(x, 0) + 1
+        sg = tuple(p for _, p in m)
+        sgn[sg] = sgn.get(sg, 0) + 1
+
+    def chi(cnt, ncls):
+        e = nsamp / ncls
+        return sum((c - e) ** 2 / e for c in cnt.values()) + (ncls - len(cnt)) * e
+    res = {'classes': (chi(cls, 36), 89.95, len(cls), 36), 'x_images': (chi(tab, 9), 42.71, len(tab), 9), 'signs': (chi(sgn, 16), 56.5, len(sgn), 16)}
+    ctx.res.notes['chi2_product_' + be] = {k: {'chi2': v[0], 'limit': v[1], 'seen': v[2], 'of': v[3]} for k, v in res.items()}
+    for k, (c, lim, seen, ncls) in res.items():
+        if seen > ncls:
+            return {'kind': 'oracle', 'where': '%s:random_pauli_map(2) produced more than %d %s' % (be, ncls, k), 'observed': seen, 'expected': ncls}
+        if c > lim:
+            return {'kind': 'oracle', 'where': '%s:random_pauli_map(2) is not a product of independent uniform one-qubit maps (%s)' % (be, k), 'observed': c, 'expected': '< %g' % lim,
+                    'tags': ['statistical', be]}
+    return None
+
+
+CHECKS = {'chi2_product': c_chi2_product, 'pair': c_pair, 'clifford': c_clifford, 'maps_states': c_maps_states, 'resample': c_resample, 'chi2': c_chi2}
 
 
 def run(ctx):
@@ -180,3 +216,5 @@ def run(ctx):
         do(ctx, 'resample', [rng.randint(1, 3), rng.randrange(10 ** 6)], nontrivial=('r', it))
     do(ctx, 'chi2', [1, 3000 if ctx.tier == 'quick' else 60000, 11], nontrivial='chi1')
     do(ctx, 'chi2', [2, 14400 if ctx.tier == 'quick' else 144000, 12], nontrivial='chi2')
+    do(ctx, 'chi2_product', ['torch', 14400 if ctx.tier == 'quick' else 144000, 13], nontrivial='chi_prod_torch')
+    do(ctx, 'chi2_product', ['np', 3600 if ctx.tier == 'quick' else 72000, 14], nontrivial='chi_prod_np')
